@@ -448,6 +448,19 @@ def deck():
              ["merge", A, B, strict])
         cell("merge/prop/late-unconvertible-value/%s" % strict, ["prop", "p", enc(["5", "6", "x"]), "string", None, {}],
              ["merge", P, 14, strict])
+    for strict in (True, False):
+        # the destination Property has a dtype but no values yet; the source values do not convert
+        cell("merge/sec/into-empty-typed-prop/%s" % strict, ["prop", "e", enc(None), "int", B, {}],
+             ["sec", "src", "t", None, {"definition": "src def", "reference": "src ref"}],
+             ["prop", "a0", enc([1]), "int", len(BASE) + 1, {}],
+             ["prop", "e", enc(["many"]), "string", len(BASE) + 1, {"unit": "u", "definition": "d"}],
+             ["merge", B, len(BASE) + 1, strict])
+        cell("merge/prop/into-empty-typed-prop/%s" % strict, ["prop", "e", enc(None), "int", None, {}],
+             ["prop", "e", enc(["many"]), "string", None, {"unit": "u", "definition": "d"}],
+             ["merge", len(BASE), len(BASE) + 1, strict])
+        cell("link/into-empty-typed-prop/%s" % strict, ["prop", "e", enc(None), "int", B, {}],
+             ["prop", "a0", enc([1]), "int", A, {}], ["prop", "e", enc(["many"]), "string", A, {"unit": "u"}],
+             ["set_link", B, A])
     cell("link/to-sibling", ["set_link", B, A], ["clean", D], ["finalize", D], ["clean", D])
     cell("link/to-nested", ["set_link", B, C], ["clean", B])
     cell("link/unresolvable", ["set_link", B, "/nowhere"])
